@@ -176,6 +176,8 @@ class AccWorld(lf.LinWorldMixin, OracleWorld):
             lo, hi = (item.fields[0].fields[0],) * 2 if item.variant == 0 else (item.fields[0].fields[0].fields[0], item.fields[0].fields[1].fields[0])
             st.emit(("emit", v.data, lo, hi, cls.tag))
             return ip.UNIT
+        if isinstance(item, Adt) and item.ty != CPS and item.fields and isinstance(item.fields[0], Adt) and item.fields[0].ty == CPS:
+            item = item.fields[0]
         if isinstance(item, Adt) and item.ty == CPS:
             if item.variant == 0:
                 x = item.fields[0].fields[0]
@@ -640,7 +642,7 @@ def rename_classes(st):
     map_state(st, lambda v: map_strs(v, lambda x: ip.Str(ren[x.tag]) if x.tag in ren else x))
 
 
-def explore_loop(prog, world, fn_key, args, on_step, on_end, max_shapes=24, letters_for=None, new_n_of=None, init_state=None):
+def explore_loop(prog, world, fn_key, args, on_step, on_end, max_shapes=24, letters_for=None, new_n_of=None, init_state=None, on_return=None):
     """Fixpoint over the suspended states of a function whose loop consumes the ascending input stream.
     on_step(shape, outcome) -> leaves [(facts, new u)] or [(facts, {ghost: value})]; on_end(shape, outcome)."""
     m = ip.Machine(prog, world)
@@ -662,8 +664,15 @@ def explore_loop(prog, world, fn_key, args, on_step, on_end, max_shapes=24, lett
     work = [init]
     n_paths = 0
     errors = []
+    rounds = 0
     while work:
+        rounds += 1
+        if rounds > 300:
+            errors.append("the set of loop state shapes does not converge (%d rounds, %d shapes)" % (rounds, len(shapes)))
+            break
         sh = work.pop()
+        if not any(sh is x for x in shapes):
+            continue  # replaced by a more general shape meanwhile
         for letter in list(letters_for(sh)) + ["END"]:
             s = sh.st.clone()
             s.facts = {("rng", a): ((r[0], r[1]),) for a, r in sh.ranges.items()}
@@ -689,6 +698,10 @@ def explore_loop(prog, world, fn_key, args, on_step, on_end, max_shapes=24, lett
                         errors.append("after the last element the function ends with %s (%s)" % (o.kind, o.info))
                         continue
                     on_end(sh, o)
+                    continue
+                if o.kind == "return" and on_return is not None:
+                    world.cur_letter = cur_letter
+                    on_return(sh, o)
                     continue
                 if o.kind != "suspend":
                     errors.append("the loop step ends with %s (%s) instead of asking for the next element" % (o.kind, o.info))
@@ -810,7 +823,8 @@ def _state_pairs(sa, sb):
 
 
 def is_w(a):
-    return a.startswith("w")
+    """Pattern variables of a general shape: every atom but the anchor."""
+    return a != "N"
 
 
 def instance_of(general, concrete):
@@ -851,12 +865,10 @@ def instance_of(general, concrete):
             return None
         out[w] = (lo, hi)
     # the remaining atoms' ranges must be contained as well
-    for a, r in concrete.ranges.items():
-        if is_w(a):
-            continue
-        g = general.ranges.get(a)
-        if g is None or r[0] < g[0] or r[1] > g[1]:
-            return None
+    r = concrete.ranges.get("N")
+    g = general.ranges.get("N")
+    if r is not None and (g is None or r[0] < g[0] or r[1] > g[1]):
+        return None
     return out
 
 
@@ -913,7 +925,19 @@ def generalise(old, new):
             st.ext[k] = rebuild(st.ext[k], new.st.ext[k])
     rr = widen_ranges(old.ranges, new.ranges)
     rr[w] = (0, MAXCP + 1)
-    return LoopShape(st, rr)
+    # bring the generalised state to the canonical form (stale parts as N-1-t, atoms renamed in order)
+    st.facts = {("rng", a): ((r[0], r[1]),) for a, r in rr.items()}
+    abstract_stale(st, st.facts, n_atom="N")
+    ren, rng, k = {}, {"N": rr.get("N", (0, MAXCP + 1))}, 0
+    for a in state_atoms(st):
+        if a == "N":
+            continue
+        ren[a] = "s%d" % k
+        rng["s%d" % k] = lf.atom_range(st.facts, a)
+        k += 1
+    map_state(st, lambda v: substitute(v, {}, {a: ({b: 1}, 0) for a, b in ren.items()}))
+    st.facts = {("rng", a): ((r[0], r[1]),) for a, r in rng.items()}
+    return LoopShape(st, rng)
 
 
 def cover_step_valued(facts, emitted, u, v, first, last, c):
